@@ -71,6 +71,17 @@ def concretize(v, model):
             return np.array(flat).reshape(v.shape)
         except Exception:
             return np.array(flat, dtype=object).reshape(v.shape)
+    if isinstance(v, A.SArr2):
+        R, C = _ev(model, v.R), _ev(model, v.C)
+        if not (z3.is_int_value(R) and z3.is_int_value(C)) or not (0 <= R.as_long() <= 12 and 0 <= C.as_long() <= 12):
+            raise CannotConcretize("2-D shape %s x %s" % (R, C))
+        R, C = R.as_long(), C.as_long()
+        dt = {"int": np.int64, "real": np.float64, "bool": bool}.get(v.kind.name, None) or getattr(np, v.kind.name)
+        out = np.zeros((R, C), dtype=dt)
+        for i in range(R):
+            for j in range(C):
+                out[i, j] = concretize(v.kind.wrap(v.at(i, j)), model)
+        return out
     if isinstance(v, A.SArr):
         n = _ev(model, v.n)
         if not z3.is_int_value(n) or n.as_long() > MAXLEN or n.as_long() < 0:
